@@ -70,6 +70,8 @@ type codeCfg struct {
 	libFieldSet map[string]string
 	// fields ADDED to the generated structure (name, Lean type): modelling devices, e.g. the world a dispatcher acts on
 	ghostFields [][2]string
+	// named func types T for which the prelude defines `call_T`: only values of these types can be called
+	callFuncs map[string]bool
 }
 
 type unsupported struct{ why string }
@@ -219,21 +221,23 @@ func zeroOf(leanT string) string {
 
 // one method being translated
 type mctx struct {
-	g        *goTranslator
-	recv     string            // Go name of the receiver variable
-	aliases  map[string]string // local → environment field it aliases (results of type assertions)
-	aliasPre map[string]string // local → prefix of the method names recorded for calls on it (json.NewEncoder(w) …)
-	results  []string          // named results (Lean names), in order
-	nres     int
-	tmp      int
-	pre      []string // hoisted bindings of the statement being translated
-	noHoist  int      // >0 while translating the right operand of && / ||
-	loopIdx  string   // loop index variable of the forEachRev idiom being translated ("" outside)
-	loopSl   string   // text of the slice expression of that loop
-	loopElem string
-	calls    map[string]bool // methods of the receiver this method calls
-	retOpt   bool            // inside the body of a range loop: `return x` is `some x`, falling through is `none`
-	envValue bool            // the value being stored is itself an environment object (a parameter of interface type)
+	g         *goTranslator
+	recv      string            // Go name of the receiver variable
+	aliases   map[string]string // local → environment field it aliases (results of type assertions)
+	aliasPre  map[string]string // local → prefix of the method names recorded for calls on it (json.NewEncoder(w) …)
+	results   []string          // named results (Lean names), in order
+	nres      int
+	tmp       int
+	pre       []string // hoisted bindings of the statement being translated
+	noHoist   int      // >0 while translating the right operand of && / ||
+	loopIdx   string   // loop index variable of the forEachRev idiom being translated ("" outside)
+	loopSl    string   // text of the slice expression of that loop
+	loopElem  string
+	calls     map[string]bool // methods of the receiver this method calls
+	retOpt    bool            // inside the body of a range loop: `return x` is `some x`, falling through is `none`
+	envValue  bool            // the value being stored is itself an environment object (a parameter of interface type)
+	loopState []string        // inside the body of a general range loop: the variables it threads (nil outside)
+	retType   string          // Lean type of the method's results
 }
 
 func (m *mctx) fresh() string { m.tmp++; return fmt.Sprintf("t%d", m.tmp) }
@@ -371,8 +375,8 @@ func (m *mctx) argInt(a ast.Expr) string {
 	case "String":
 		return "Arg.str " + atomOf(s)
 	}
-	bad("argument of type %s passed to the environment", t)
-	return ""
+	_ = s
+	return "Arg.other" // passed on to the environment; the trace does not spell it out
 }
 
 func (m *mctx) envCall(field, method string, args []ast.Expr, nres int) string {
@@ -708,13 +712,29 @@ func (m *mctx) call(c *ast.CallExpr) string {
 			}
 			bad("builtin %s", id.Name)
 		}
-		// a call of a local value of a named func type with the receiver as its only argument
+		// a call of a local value of a named func type T: `call_T f recv args…` (the receiver itself is not repeated among the
+		// arguments); with results: `(results, recv)`
 		if tv, ok := m.g.info.Types[c.Fun]; ok {
 			if n, ok := tv.Type.(*types.Named); ok {
-				if _, isSig := n.Underlying().(*types.Signature); isSig && len(c.Args) == 1 && m.isRecv(c.Args[0]) {
+				if sg, isSig := n.Underlying().(*types.Signature); isSig {
+					if !m.g.cfg.callFuncs[n.Obj().Name()] {
+						bad("call of a value of func type %s", n.Obj().Name())
+					}
 					w := leanIdent(m.recv)
-					m.hoist(fmt.Sprintf("let %s := call_%s %s %s;", w, n.Obj().Name(), leanIdent(id.Name), w))
-					return "()"
+					parts := []string{"call_" + n.Obj().Name(), leanIdent(id.Name), w}
+					for _, a := range c.Args {
+						if m.isRecv(a) {
+							continue
+						}
+						parts = append(parts, m.atom(a))
+					}
+					if sg.Results().Len() == 0 {
+						m.hoist(fmt.Sprintf("let %s := %s;", w, strings.Join(parts, " ")))
+						return "()"
+					}
+					r := m.fresh()
+					m.hoist(fmt.Sprintf("let (%s, %s) := %s;", r, w, strings.Join(parts, " ")))
+					return r
 				}
 			}
 		}
@@ -736,7 +756,7 @@ func (m *mctx) call(c *ast.CallExpr) string {
 	if ix, ok := c.Fun.(*ast.IndexExpr); ok {
 		if tv, ok := m.g.info.Types[ix]; ok {
 			if n, ok := tv.Type.(*types.Named); ok {
-				if _, isSig := n.Underlying().(*types.Signature); isSig && len(c.Args) == 1 && m.isRecv(c.Args[0]) {
+				if _, isSig := n.Underlying().(*types.Signature); isSig && len(c.Args) == 1 && m.isRecv(c.Args[0]) && m.g.cfg.callFuncs[n.Obj().Name()] {
 					f := m.expr(ix)
 					w := leanIdent(m.recv)
 					m.hoist(fmt.Sprintf("let %s := call_%s %s %s;", w, n.Obj().Name(), f, w))
@@ -760,12 +780,23 @@ func (m *mctx) call(c *ast.CallExpr) string {
 					}
 				}
 				if isCall || isField {
+					if !m.g.cfg.callFuncs[n.Obj().Name()] {
+						bad("call of a value of func type %s", n.Obj().Name())
+					}
 					f := m.atom(c.Fun)
 					parts := []string{"call_" + n.Obj().Name(), f, leanIdent(m.recv)}
 					for _, a := range c.Args {
+						if m.isRecv(a) {
+							continue
+						}
 						parts = append(parts, m.atom(a))
 					}
 					w := leanIdent(m.recv)
+					if sg := n.Underlying().(*types.Signature); sg.Results().Len() > 0 {
+						r := m.fresh()
+						m.hoist(fmt.Sprintf("let (%s, %s) := %s;", r, w, strings.Join(parts, " ")))
+						return r
+					}
 					m.hoist(fmt.Sprintf("let %s := %s;", w, strings.Join(parts, " ")))
 					return "()"
 				}
@@ -874,6 +905,55 @@ func hasReturn(n ast.Node) bool {
 	return found
 }
 
+// hasBranch: a break / continue that belongs to the loop whose body `n` is (not to a loop nested in it)
+func hasBranch(n ast.Node) bool {
+	found := false
+	ast.Inspect(n, func(x ast.Node) bool {
+		switch b := x.(type) {
+		case *ast.BranchStmt:
+			if b.Tok == token.BREAK || b.Tok == token.CONTINUE {
+				found = true
+			}
+		case *ast.FuncLit, *ast.ForStmt, *ast.RangeStmt, *ast.SwitchStmt, *ast.SelectStmt, *ast.TypeSwitchStmt:
+			return false
+		}
+		return !found
+	})
+	return found
+}
+
+// jumps: control may leave `n` other than by falling off its end
+func (m *mctx) jumps(n ast.Node) bool {
+	return hasReturn(n) || (m.loopState != nil && hasBranch(n))
+}
+
+func (m *mctx) alwaysJumps(stmts []ast.Stmt) bool {
+	if len(stmts) == 0 {
+		return false
+	}
+	switch s := stmts[len(stmts)-1].(type) {
+	case *ast.ReturnStmt:
+		return true
+	case *ast.BranchStmt:
+		return m.loopState != nil && (s.Tok == token.BREAK || s.Tok == token.CONTINUE)
+	case *ast.IfStmt:
+		if s.Else == nil {
+			return false
+		}
+		var els []ast.Stmt
+		switch e := s.Else.(type) {
+		case *ast.BlockStmt:
+			els = e.List
+		case *ast.IfStmt:
+			els = []ast.Stmt{e}
+		}
+		return m.alwaysJumps(s.Body.List) && m.alwaysJumps(els)
+	case *ast.BlockStmt:
+		return m.alwaysJumps(s.List)
+	}
+	return false
+}
+
 func alwaysReturns(stmts []ast.Stmt) bool {
 	if len(stmts) == 0 {
 		return false
@@ -921,9 +1001,27 @@ func (m *mctx) assigned(stmts []ast.Stmt) (vars []string, recv bool) {
 							seen[lv.Name] = true
 							vars = append(vars, leanIdent(lv.Name))
 						}
-					case *ast.SelectorExpr:
-						if m.isRecv(lv.X) {
-							recv = true
+					case *ast.SelectorExpr, *ast.IndexExpr:
+						// a store into a field / an entry: of the receiver, or of a local value (which is then rebound)
+						var root ast.Expr = lv
+						for {
+							switch r := root.(type) {
+							case *ast.SelectorExpr:
+								root = r.X
+								continue
+							case *ast.IndexExpr:
+								root = r.X
+								continue
+							}
+							break
+						}
+						if id, ok := root.(*ast.Ident); ok {
+							if id.Name == m.recv {
+								recv = true
+							} else if !declared[id.Name] && !seen[id.Name] {
+								seen[id.Name] = true
+								vars = append(vars, leanIdent(id.Name))
+							}
 						}
 					}
 				}
@@ -1023,11 +1121,29 @@ func (m *mctx) stmts(list []ast.Stmt, tail func() string, ind string) string {
 			if len(x.Results) == 0 {
 				vals = append([]string{}, m.results...)
 			}
+			if m.loopState != nil {
+				b.WriteString(ind + "(GoSem.Ctl.ret " + atomOf(tuple(vals)) + ", " + tuple(m.loopState) + ")\n")
+				return b.String()
+			}
 			if m.retOpt {
 				b.WriteString(ind + "some " + tuple(vals) + "\n")
 				return b.String()
 			}
 			b.WriteString(ind + "(" + tuple(vals) + ", " + leanIdent(m.recv) + ")\n")
+			return b.String()
+		case *ast.BranchStmt:
+			if m.loopState == nil || x.Label != nil {
+				bad("%s outside a translated loop", x.Tok)
+			}
+			m.flush(&b, ind)
+			switch x.Tok {
+			case token.CONTINUE:
+				b.WriteString(ind + "(GoSem.Ctl.next, " + tuple(m.loopState) + ")\n")
+			case token.BREAK:
+				b.WriteString(ind + "(GoSem.Ctl.brk, " + tuple(m.loopState) + ")\n")
+			default:
+				bad("%s", x.Tok)
+			}
 			return b.String()
 		case *ast.ExprStmt:
 			c, ok := x.X.(*ast.CallExpr)
@@ -1067,7 +1183,7 @@ func (m *mctx) stmts(list []ast.Stmt, tail func() string, ind string) string {
 			case *ast.IfStmt:
 				els = []ast.Stmt{e}
 			}
-			if !hasReturn(x.Body) && (x.Else == nil || !hasReturn(x.Else)) {
+			if !m.jumps(x.Body) && (x.Else == nil || !m.jumps(x.Else)) {
 				vars, recv := m.assigned(append(append([]ast.Stmt{}, x.Body.List...), els...))
 				jv := vars
 				if recv {
@@ -1086,11 +1202,11 @@ func (m *mctx) stmts(list []ast.Stmt, tail func() string, ind string) string {
 			}
 			// some path returns: each branch continues with (a copy of) the rest of the block
 			d := declaredIn(append(append([]ast.Stmt{}, x.Body.List...), els...))
-			if hit := usesAny(rest, d); hit != "" && !alwaysReturns(x.Body.List) {
+			if hit := usesAny(rest, d); hit != "" && !m.alwaysJumps(x.Body.List) {
 				bad("%s declared in a branch is also a name used after the if", hit)
 			}
 			b.WriteString(ind + "if " + cond + " then (\n")
-			if alwaysReturns(x.Body.List) {
+			if m.alwaysJumps(x.Body.List) {
 				b.WriteString(m.stmts(x.Body.List, tail, ind+"  "))
 			} else {
 				b.WriteString(m.stmts(append(append([]ast.Stmt{}, x.Body.List...), rest...), tail, ind+"  "))
@@ -1110,8 +1226,9 @@ func (m *mctx) stmts(list []ast.Stmt, tail func() string, ind string) string {
 				b.WriteString(txt)
 				continue
 			}
-			if vars, recv := m.assigned(x.Body.List); len(vars) > 0 || recv {
-				bad("a range loop whose body changes state")
+			if vars, recv := m.assigned(x.Body.List); len(vars) > 0 || recv || hasBranch(x.Body) || m.loopState != nil {
+				b.WriteString(m.rangeGeneral(x, vars, recv, rest, tail, ind))
+				return b.String()
 			}
 			if x.Tok != token.DEFINE {
 				bad("range with assignment to existing variables")
@@ -1155,7 +1272,7 @@ func (m *mctx) stmts(list []ast.Stmt, tail func() string, ind string) string {
 			if hit := usesAny(rest, declaredIn(x.List)); hit != "" {
 				bad("%s declared in a block is also a name used after it", hit)
 			}
-			if hasReturn(x) {
+			if m.jumps(x) {
 				b.WriteString(m.stmts(append(append([]ast.Stmt{}, x.List...), rest...), tail, ind))
 				return b.String()
 			}
@@ -1237,6 +1354,18 @@ func (m *mctx) store(lhs ast.Expr, val string, ind string) string {
 		}
 	}
 	if l, ok := lhs.(*ast.SelectorExpr); ok {
+		if inner, ok := l.X.(*ast.SelectorExpr); ok {
+			if id, ok := inner.X.(*ast.Ident); ok && !m.isRecv(id) {
+				s1, s2 := m.g.info.Selections[inner], m.g.info.Selections[l]
+				if s1 != nil && s2 != nil && s1.Kind() == types.FieldVal && s2.Kind() == types.FieldVal {
+					key := fieldOwner(s1) + "." + inner.Sel.Name + "/" + fieldOwner(s2) + "." + l.Sel.Name
+					if fn, ok := m.g.cfg.libFieldSet[key]; ok {
+						return fmt.Sprintf("%slet %s := %s %s %s;\n", ind, leanIdent(id.Name), fn, leanIdent(id.Name), atomOf(val))
+					}
+					bad("assignment to %s: not in the table", key)
+				}
+			}
+		}
 		if id, ok := l.X.(*ast.Ident); ok && !m.isRecv(id) {
 			if sel := m.g.info.Selections[l]; sel != nil && sel.Kind() == types.FieldVal {
 				key := fieldOwner(sel) + "." + l.Sel.Name
@@ -1371,6 +1500,74 @@ func (m *mctx) assign(x *ast.AssignStmt, ind string) string {
 	for i, l := range x.Lhs {
 		b.WriteString(m.store(l, vals[i], ind))
 	}
+	return b.String()
+}
+
+// rangeGeneral: `for k, v := range E { body }` with a body that may assign outer variables, change the receiver, `continue`,
+// `break` and `return`: a left fold over the entries that threads exactly those variables and stops at the first break or
+// return (Code/GoSem.lean: `forRangeCtl`)
+func (m *mctx) rangeGeneral(x *ast.RangeStmt, vars []string, recv bool, rest []ast.Stmt, tail func() string, ind string) string {
+	if x.Tok != token.DEFINE && (x.Key != nil || x.Value != nil) {
+		bad("range with assignment to existing variables")
+	}
+	name := func(e ast.Expr) string {
+		if e == nil {
+			return "_"
+		}
+		if id, ok := e.(*ast.Ident); ok {
+			return leanIdent(id.Name)
+		}
+		bad("range into a non-identifier")
+		return ""
+	}
+	var b strings.Builder
+	e := m.atom(x.X)
+	m.flush(&b, ind)
+	src := e
+	switch m.g.info.Types[x.X].Type.Underlying().(type) {
+	case *types.Map:
+	case *types.Slice:
+		src = "(GoSem.enum " + e + ")"
+	default:
+		bad("range over %s", m.g.info.Types[x.X].Type)
+	}
+	if hit := usesAny(rest, declaredIn(x.Body.List)); hit != "" {
+		bad("%s declared in a loop body is also a name used after the loop", hit)
+	}
+	state := append([]string{}, vars...)
+	if recv {
+		state = append([]string{leanIdent(m.recv)}, state...)
+	}
+	st := tuple(state)
+	saved, savedOpt := m.loopState, m.retOpt
+	m.loopState, m.retOpt = state, false
+	if len(state) == 0 {
+		m.loopState = []string{}
+	}
+	body := m.stmts(x.Body.List, func() string { return "(GoSem.Ctl.next, " + st + ")" }, ind+"    ")
+	m.loopState, m.retOpt = saved, savedOpt
+	rho := m.retType
+	if rho == "" {
+		rho = "Unit"
+	}
+	b.WriteString(fmt.Sprintf("%slet (ctl_, %s) := GoSem.forRangeCtl (ρ := %s) %s (fun (%s, %s) %s =>\n%s%s  ) %s;\n",
+		ind, st, rho, src, name(x.Key), name(x.Value), st, body, ind, st))
+	if !hasReturn(x.Body) {
+		b.WriteString(m.stmts(rest, tail, ind))
+		return b.String()
+	}
+	var onRet string
+	switch {
+	case saved != nil:
+		onRet = "(GoSem.Ctl.ret r_, " + tuple(saved) + ")"
+	case savedOpt:
+		onRet = "some r_"
+	default:
+		onRet = "(r_, " + leanIdent(m.recv) + ")"
+	}
+	b.WriteString(fmt.Sprintf("%smatch ctl_ with\n%s| GoSem.Ctl.ret r_ => %s\n%s| _ => (\n", ind, ind, onRet, ind))
+	b.WriteString(m.stmts(rest, tail, ind+"  "))
+	b.WriteString(ind + ")\n")
 	return b.String()
 }
 
@@ -1815,6 +2012,7 @@ func (g *goTranslator) method(fd *ast.FuncDecl) (mo *methodOut, err error) {
 			ret = "(" + ret + ")"
 		}
 	}
+	m.retType = ret
 	tail := func() string {
 		if len(resT) > 0 && len(m.results) == 0 {
 			bad("control reaches the end of a function with unnamed results")
